@@ -84,7 +84,7 @@ CHECKS = {
     ),
     "C01": dict(
         text="(a) exact arithmetic: an event with an arbitrary microsecond instant, symbolic UTC offset, duration and pooled JSON data is inserted (single / bulk) into memory and sqlite (SQL through the sqlite3 model) and z3 decides that listing and lookup return it with a unique id, instant floored to ms, duration and data equal; (b) ownership: every alias handed in or out (event, nested data, timestamp, duration, id, metadata dicts) is mutated and a second read must equal the first; (c) IEEE lemma: the real insert_one -> REAL/INTEGER cells -> _rows_to_events float pipeline is executed under the rounded-real encoding of double arithmetic for every millisecond instant and every microsecond duration, split into range pieces with a single binade per rounding: instant exact to the ms and duration exact to the us.",
-        note="Trusted: z3, the sqlite3 model (dual-run conformance), CPython's documented float algorithms. The IEEE lemma is decided for instants before 2038-01-19 only (2000..2038 quick, 1970..2038 thorough): beyond 2^31 s exactness depends on ties-to-even, where the coarse encoding yields non-reproducing candidates and the exact one does not finish — 2038..2100 is NOT decided for float fidelity (exact-arithmetic parts cover those dates). Peewee backend not covered by this check.",
+        note="Trusted: z3, the sqlite3 model (dual-run conformance), CPython's documented float algorithms. IEEE lemma: instants 2000..2099 (quick) / 1970..2099 (thorough) x durations 0..30 d; exact ties are over-approximated and candidates are confirmed natively (up to 12 re-sampled models). Peewee's float chain (total_seconds -> REAL -> Decimal(str) -> float -> timedelta) is C13's json-duration lemma; peewee is exercised through the sqlite3 model in C02-C07, not in this check.",
         ref="§4, §7 C01",
     ),
     "C05": dict(
